@@ -28,6 +28,8 @@ import (
 	deletesvc "github.com/nspcc-dev/neofs-node/pkg/services/object/delete"
 	getsvc "github.com/nspcc-dev/neofs-node/pkg/services/object/get"
 	putsvc "github.com/nspcc-dev/neofs-node/pkg/services/object/put"
+	"github.com/nspcc-dev/neofs-node/pkg/services/object/split"
+	"github.com/nspcc-dev/neofs-node/pkg/services/object/tombstone"
 	objutil "github.com/nspcc-dev/neofs-node/pkg/services/object/util"
 	"github.com/nspcc-dev/neofs-sdk-go/client"
 	"github.com/nspcc-dev/neofs-sdk-go/container/acl"
@@ -35,6 +37,7 @@ import (
 	"github.com/nspcc-dev/neofs-sdk-go/eacl"
 	"github.com/nspcc-dev/neofs-sdk-go/object"
 	oid "github.com/nspcc-dev/neofs-sdk-go/object/id"
+	protoobject "github.com/nspcc-dev/neofs-sdk-go/proto/object"
 	sessionv2 "github.com/nspcc-dev/neofs-sdk-go/session/v2"
 	"github.com/nspcc-dev/neofs-sdk-go/stat"
 	"github.com/nspcc-dev/neofs-sdk-go/user"
@@ -80,6 +83,17 @@ type Config struct {
 	// container nodes (reachable fake nodes) do. Implies LocalInContainer.
 	RemoteHolds bool
 	Shards      int // default 1
+	// RealVerifiers: the put service validates tombstone targets and link split chains with the real
+	// tombstone.Verifier / split.Verifier over the real get service and the server's search (as
+	// cmd/neofs-node wires them) instead of accepting stubs.
+	RealVerifiers bool
+	// NoSeed: do not store R1/R2 in the engine.
+	NoSeed bool
+	// Chain tuning (see Chain).
+	SoloCurrent    bool
+	PrevEpochExtra []string
+	ECCnrID        cid.ID
+	MaxObjSize     uint64
 }
 
 // World is one live object service over a real engine with recording boundaries.
@@ -153,6 +167,39 @@ func (x storage) GetSessionV2PrivateKey(s []sessionv2.Target) (ecdsa.PrivateKey,
 		return ecdsa.PrivateKey{}, err
 	}
 	return *k, nil
+}
+
+// objSource mirrors cmd/neofs-node's objectSource (what the real tombstone verifier reads from).
+type objSource struct {
+	get *getsvc.Service
+	w   *World
+}
+
+type hdrWriter struct{ h *object.Object }
+
+func (h *hdrWriter) WriteHeader(o *object.Object) error { h.h = o; return nil }
+
+func (o objSource) Head(ctx context.Context, addr oid.Address) (*object.Object, error) {
+	var hw hdrWriter
+	var p getsvc.HeadPrm
+	p.SetHeaderWriter(&hw)
+	p.WithAddress(addr)
+	p.WithRawFlag(true)
+	err := o.get.Head(ctx, p)
+	return hw.h, err
+}
+
+func (o objSource) SearchOne(ctx context.Context, cnr cid.ID, filters object.SearchFilters) (oid.ID, error) {
+	req := &protoobject.SearchV2Request{Body: &protoobject.SearchV2Request_Body{
+		ContainerId: cnr.ProtoMessage(), Version: 1, Filters: filters.ProtoMessage(), Count: 1}}
+	res, _, err := o.w.Srv.ProcessSearch(ctx, req, false, false, cnr)
+	if err != nil {
+		return oid.ID{}, err
+	}
+	if len(res) == 1 {
+		return res[0].ID, nil
+	}
+	return oid.ID{}, nil
 }
 
 type headerSource struct{ rec *Recorder }
@@ -233,7 +280,8 @@ func New(cfg Config) (*World, error) {
 		w.Cfg = cfg
 	}
 	w.Chain = &Chain{Rec: w.Rec, CnrID: CID("A"), BasicACL: cfg.BasicACL, EACL: cfg.EACL,
-		LocalInContainer: cfg.LocalInContainer, ThreeNodes: cfg.RemoteHolds, Maintenance: cfg.Maintenance}
+		LocalInContainer: cfg.LocalInContainer, ThreeNodes: cfg.RemoteHolds, Maintenance: cfg.Maintenance,
+		SoloCurrent: cfg.SoloCurrent, PrevEpochExtra: cfg.PrevEpochExtra, ECCnrID: cfg.ECCnrID, MaxObjSize: cfg.MaxObjSize}
 	w.Net = &Net{Rec: w.Rec, Remotes: map[string]*RemoteNode{}}
 	w.Eng, err = NewEngine(dir, cfg.Shards, w.Chain)
 	if err != nil {
@@ -251,7 +299,7 @@ func New(cfg Config) (*World, error) {
 			}
 			w.Net.Remotes[string(Pub(l))] = rn
 		}
-	} else if cfg.LocalInContainer {
+	} else if cfg.LocalInContainer && !cfg.NoSeed {
 		for _, o := range []*object.Object{w.R1, w.R2} {
 			if err := w.Eng.Put(context.Background(), o, nil); err != nil {
 				w.Close()
@@ -271,6 +319,12 @@ func New(cfg Config) (*World, error) {
 		getsvc.WithKeyStorage(keys),
 	)
 	sessionsCache := isessions.NewObjectSessionsCache(64)
+	var splitV objectcore.SplitVerifier = w.Chain
+	var tombV objectcore.TombVerifier = w.Chain
+	if cfg.RealVerifiers {
+		splitV = split.NewVerifier(sGet)
+		tombV = tombstone.NewVerifier(objSource{get: sGet, w: w})
+	}
 	sPut := putsvc.NewService(w.Net, w.Chain, nil, w.Chain, w.Chain,
 		putsvc.WithKeyStorage(keys),
 		putsvc.WithClientConstructor(w.Net),
@@ -280,8 +334,8 @@ func New(cfg Config) (*World, error) {
 		putsvc.WithNetworkState(w.Chain),
 		putsvc.WithSessionsCache(sessionsCache),
 		putsvc.WithLogger(log),
-		putsvc.WithSplitChainVerifier(w.Chain),
-		putsvc.WithTombstoneVerifier(w.Chain),
+		putsvc.WithSplitChainVerifier(splitV),
+		putsvc.WithTombstoneVerifier(tombV),
 	)
 	w.Put = sPut
 	sDel := deletesvc.New(
